@@ -8,6 +8,8 @@ CONSTANTS
   Ops2 = {}
   NestDepths = {1, 2, 16, 256}
   SpliceWindow = 8
+  OctetSel = {"empty", "b1", "m1", "p1", "flip0", "x2", "badb64", "null"}
+  JweCbcAlgs = {"dir", "RSA1_5", "ECDH-ES+A128KW", "A128GCMKW"}
   StructAllSeeds = FALSE
   SpliceOther = FALSE
   RandLens = {0, 1, 2, 3, 7, 64, 1000, 65536}
